@@ -127,3 +127,52 @@ Example C13_nonvacuous :
   | _ => False
   end.
 Proof. exact ex_nonvacuous. Qed.
+
+(* ---- added in the deepening round (the theorems above are unchanged) ---- *)
+
+(* names_clean: composing C13_assignment with C15's candidate-text and character-substitution theorems (expand_spec, charsub_clean).
+   For every configuration whose Filenames.py has the repairs (legacy switches off), every forbidden-character set bad and substitute
+   sub free of forbidden characters, every template whose names are of the documented grammar (pr_int of a well-formed name in which
+   every variable occurs once): every file name issued to a node is  add_extension (literals of ONE alternative of the template ++
+   values of its variables), and every VARIABLE PART -- the value substituted for a variable other than $num ($id, $title, $ref,
+   $name, $jobname; not the literal text of the template, whose characters are the user's own choice, and not the digits of $num) --
+   contains none of the forbidden characters.  _partial: for a word-limited variable $x(n) this needs the blank not to be forbidden. *)
+Theorem C13_names_clean_partial :
+  forall c doc st files bad sub tfiles static wild,
+    assign c doc = Some (AOk st files) ->
+    legacy_reset (r_fc c) = false -> legacy_words (r_fc c) = false ->
+    cs (r_fc c) = Some (bad, sub) -> clean bad sub ->
+    parse_filenames (r_template c) = Some tfiles -> split_files tfiles [] = (static, wild) ->
+    (forall item, In item (static ++ wild) -> exists nt, item = pr_int nt /\ wf_name nt /\ NoDup (map fst (keys_of nt))) ->
+    forall x f, In (x, Some f) files ->
+      exists nt v n1 r,
+        In (pr_int nt) (static ++ wild) /\ spec_expand (r_fc c) n1 v nt = Some r /\ f = add_extension (ext (r_fc c)) r /\
+        forall y w val, In (SVar y w) nt -> str_eqb y k_num = false -> var_value (r_fc c) n1 v y w = Some val ->
+                        (w = None \/ ~ In 32 bad) -> clean bad val.
+Proof. exact names_clean. Qed.
+Print Assumptions C13_names_clean_partial.
+
+(* the full clause is refuted on the faithful Model: the words of $title(2) are split and joined by blanks AFTER the forbidden
+   characters were replaced, so with the blank forbidden a value holding other white space (a no-break space, from ~) gets a blank
+   back: title "A<nbsp>B C", bad-chars " ", substitute "-"  ->  "A B-C".  Reproduced on the real Filenames ('A B-C.html'); finding
+   C13-word-limit-reintroduces-blank (notes/C13/known.json). *)
+Theorem C13_names_clean_refuted :
+  let c := mk_fcfg [32] [45] [46;104;116;109;108] 0 0 0 in
+  let v := [(k_title, [65; 160; 66; 32; 67])] in
+  let nt := [SVar k_title (Some [50])] in
+  wf_name nt /\ spec_expand c 1 v nt = Some [65; 32; 66; 45; 67] /\ In 32 [65; 32; 66; 45; 67] /\ cs c = Some ([32], [45]).
+Proof. exact names_clean_refuted. Qed.
+Print Assumptions C13_names_clean_refuted.
+
+(* run-to-run determinism, stated explicitly: the same configuration, document and footnote list give the same assignment, hence the same
+   set of files, and the same contents (assign and render are functions; nothing else -- clock, hash order, earlier runs -- enters).
+   The correspondence renders every case twice in two pristine processes and compares the files byte for byte (tag "rendered-twice"). *)
+Theorem C13_deterministic :
+  forall c1 c2 d1 d2 fn1 fn2 tmpl layout shows,
+    c1 = c2 -> d1 = d2 -> fn1 = fn2 ->
+    assign c1 d1 = assign c2 d2 /\
+    forall st1 st2 files1 files2, assign c1 d1 = Some (AOk st1 files1) -> assign c2 d2 = Some (AOk st2 files2) ->
+      files1 = files2 /\
+      render (the_fmap files1) tmpl layout shows d1 fn1 = render (the_fmap files2) tmpl layout shows d2 fn2.
+Proof. exact render_deterministic. Qed.
+Print Assumptions C13_deterministic.
